@@ -289,6 +289,8 @@ class FnInfo:
         # def-use graph on instruction ids; SCCs via iterative Tarjan
         succ = {}
         for i in f.all_insts():
+            if i.op != "phi" and (i.op not in EVALUABLE or i.op == "getelementptr"):
+                continue        # results of loads, calls, ... are leaves: a cycle through them cannot grow a value
             for o in i.ops:
                 if o[0] == "i":
                     succ.setdefault(o[1], []).append(i.id)
@@ -363,6 +365,27 @@ class FnInfo:
                         if o[0] in ("i", "a"):
                             work.append((o[0], o[1]))
         self._closure[key] = out
+        return out
+
+    def closure_phi(self, key):
+        """static data dependence: like closure() but also through phi operands"""
+        ck = ("phi", key)
+        if ck in self._closure:
+            return self._closure[ck]
+        out = set()
+        work = [key]
+        while work:
+            k = work.pop()
+            if k in out:
+                continue
+            out.add(k)
+            if k[0] == "i":
+                i = self.f.insts[k[1]]
+                if i.op in EVALUABLE or i.op == "phi":
+                    for o in i.ops:
+                        if o[0] in ("i", "a"):
+                            work.append((o[0], o[1]))
+        self._closure[ck] = out
         return out
 
     def live_after_phis(self):
@@ -462,6 +485,7 @@ class Explorer:
         self.start_block = start_block
         self.tainted_conds = []         # undecidable conditions that depend on assumptions
         self.stop = False               # a plugin may end the exploration early
+        self.track_taint = False        # dynamic provenance: which phi values were copied from assumption-dependent values
 
     # ---------------- evaluation
     def eval(self, o, env, memo=None):
@@ -601,7 +625,7 @@ class Explorer:
                     return ai or full(1)
                 return full(1)
             for x, cv in ((ai, sb), (bi, sa)):
-                if cv is not None and x is not None and count(x) <= 4096:
+                if cv is not None and x is not None and count(x) <= 128:
                     return mk(w, [(v & cv, v & cv) for lo, hi in x[2] for v in range(lo, hi + 1)])
             for x, cv in ((ai, sb), (bi, sa)):
                 if cv is not None and x is not None and cv:
@@ -989,7 +1013,7 @@ class Explorer:
             C = d.ops[1][1]
             inv = (~C) & ((1 << w) - 1)
             cur0 = self.eval(d.ops[0], e)
-            if cur0 is not None and cur0[0] == "int" and count(cur0) <= 4096:
+            if cur0 is not None and cur0[0] == "int" and count(cur0) <= 128:
                 keep = [(v, v) for lo, hi in cur0[2] for v in range(lo, hi + 1) if not is_empty(inter(const(v & C, w), av))]
                 self._set_int(d.ops[0], mk(w, keep), e)
             elif C and (inv & (inv + 1)) == 0:
@@ -1057,11 +1081,22 @@ class Explorer:
         return False
 
     # ---------------- exploration
-    def depends_on_assumption(self, o):
+    def tainted(self, o, env):
+        """does the value of o on this path derive from an assumed root (through evaluable instructions and the phi copies taken)?"""
+        if o[0] not in ("i", "a"):
+            return False
+        roots = set(self.assume) | {("i", k) for k in self.assume_def}
+        for k in self.info.closure((o[0], o[1])):
+            if k in roots or ("t", k) in env:
+                return True
+        return False
+
+    def depends_on_assumption(self, o, through_phis=False):
         roots = set(self.assume) | {("i", k) for k in self.assume_def}
         if o[0] not in ("i", "a"):
             return False
-        return bool(self.info.closure((o[0], o[1])) & roots)
+        cl = self.info.closure_phi((o[0], o[1])) if through_phis else self.info.closure((o[0], o[1]))
+        return bool(cl & roots)
 
     def run(self):
         f = self.f
@@ -1097,6 +1132,16 @@ class Explorer:
                         env.pop(k, None)
                     else:
                         env[k] = v
+                if self.track_taint:
+                    for p in b.phis():
+                        k = ("i", p.id)
+                        for o, pb in zip(p.ops, p.d["inc"]):
+                            if pb == pred:
+                                if self.tainted(o, old_env):
+                                    env[("t", k)] = True
+                                else:
+                                    env.pop(("t", k), None)
+                                break
                 # relations of designated pairs follow the copy made by the phi
                 if self.pairs:
                     phimap = {}
@@ -1116,7 +1161,8 @@ class Explorer:
                                 env[("rel", ka, kb)] = r
             # prune by liveness (plugin keys are kept)
             live = self.live[bidx]
-            env = {k: v for k, v in env.items() if (k[0] not in ("i", "a")) or k in live or (k[0] == "i" and k[1] in self.assume_def)}
+            env = {k: v for k, v in env.items() if (k[0] not in ("i", "a", "t")) or k in live or (k[0] == "i" and k[1] in self.assume_def)
+                   or (k[0] == "t" and k[1] in live)}
             st = State(env, st.approx, st.trail + (bidx,) if self.keep_trail else ())
             sk = (bidx, st.key())
             if sk in seen:
